@@ -1,8 +1,8 @@
 package engine
 
 import (
-	"strings"
 	"go/token"
+	"strings"
 
 	"golang.org/x/tools/go/ssa"
 )
